@@ -1,0 +1,38 @@
+//! Verification hooks (feature `verif-hooks`).
+//!
+//! Thin wrappers that expose crate-private kernels so the external
+//! verification harness can drive every dispatch path directly. Nothing here
+//! changes behaviour; with the feature off this module is not compiled.
+#![allow(unsafe_code)]
+#![allow(missing_docs)]
+
+pub use crate::util::broadword::{select_in_word_broadword, verif_select_in_word_ctz};
+pub use crate::util::table::{select_in_byte, SELECT_IN_BYTE_TABLE};
+
+/// PDEP select path; `None` when BMI2 is not available on this CPU.
+#[cfg(all(target_arch = "x86_64", feature = "std"))]
+pub fn select_in_word_pdep(x: u64, k: u32) -> Option<u32> {
+    if std::arch::is_x86_feature_detected!("bmi2") {
+        // SAFETY: BMI2 checked above.
+        Some(unsafe { crate::util::simd::x86::select_in_word_pdep(x, k) })
+    } else {
+        None
+    }
+}
+
+/// Whether `select_in_word` dispatches to PDEP on this CPU.
+#[cfg(all(target_arch = "x86_64", feature = "std"))]
+pub fn has_fast_bmi2() -> bool {
+    crate::util::simd::x86::has_fast_bmi2()
+}
+
+/// AVX2 block popcount; `None` when AVX2 is unavailable or `block.len() != 8`.
+#[cfg(all(target_arch = "x86_64", feature = "std"))]
+pub fn block_popcount_avx2(block: &[u64]) -> Option<usize> {
+    if block.len() == crate::bits::BLOCK && std::arch::is_x86_feature_detected!("avx2") {
+        // SAFETY: AVX2 checked above, block has exactly BLOCK words.
+        Some(unsafe { crate::bits::block_popcount_avx2(block) })
+    } else {
+        None
+    }
+}
